@@ -263,6 +263,12 @@ impl Coe {
     let ghost req0 = request;
     let ghost h0 = headers;
     let ghost d0 = data@;
+@before "return Err(Error::Mailbox(MailboxError::TooLong"
+    proof {
+        // TooLong is produced only here, and only for an object that really exceeds the destination (an object that fits
+        // exactly must be delivered)
+        assert(!h0.sdo_header.expedited_transfer && le32(d0) > T::PACKED_LEN);
+    }
 @before "T::unpack_from_slice(response_payload).map_err"
     proof {
         let dl: int = if h0.header.length >= 10 { (h0.header.length - 10) as int } else { 0 };
